@@ -382,6 +382,13 @@ fn grammar_strings(fx: &Fixture) -> Vec<String> {
             v.push(format!("${}$v=19$m=8,t=1,p=1${}${}", a, e.encode([2u8; 16]), e.encode(vec![0xa5u8; n])));
         }
     }
+    // stored hashes and salts longer than any fixed scratch buffer a verifier might use
+    for a in ["argon2id", "argon2i"] {
+        for n in [127usize, 128, 129, 130, 160, 200, 255, 256, 257, 300, 512, 1025] {
+            v.push(format!("${}$v=19$m=8,t=1,p=1${}${}", a, e.encode([2u8; 16]), e.encode(vec![0xa5u8; n])));
+            v.push(format!("${}$v=19$m=8,t=1,p=1${}${}", a, e.encode(vec![0x5au8; n]), e.encode([6u8; 32])));
+        }
+    }
     // every memory cost 8..=2100 KiB (all residues of the 4-lane-slice and 128-word address
     // block granularities), a stride above that, pass counts 1..=3
     for a in ["argon2id", "argon2i"] {
